@@ -268,7 +268,14 @@ func defaultValueForTypeRec(schemas ast.Schemas, typeDef ast.Type, importModule 
 						fieldOverrides = orderedmap.FromMap(overrides)
 					}
 
-					value = defaultValueForType(schemas, field.Type, importModule, fieldOverrides)
+					// an override that is not an object (an enum member, …) replaces the default of the field's own type
+					fieldType := field.Type
+					if fieldOverrides == nil {
+						fieldType = field.Type.DeepCopy()
+						fieldType.Default = v
+					}
+
+					value = defaultValueForType(schemas, fieldType, importModule, fieldOverrides)
 				}
 
 				extraDefaults = append(extraDefaults, fmt.Sprintf("%s=%s", formatIdentifier(k), formatValue(value)))
